@@ -285,8 +285,30 @@ def named_mechanism(cls, key, small, mode, detail=None):
         return "REJECT/NamedExpr/unparenthesised-walrus-in-match-subject"
     if cls == "REJECT" and surface and isinstance(root, ast.JoinedStr) and re.search(r"(?i)\b(rf|fr)('|\")", text) and re.search(r"\\['\"]", text):
         return "REJECT/JoinedStr/raw-f-string-containing-a-backslash-quote"
+    # ---- mechanisms first seen on the wider corpus of the thorough tier
+    if "JoinedStr" in kinds:
+        fsegs = [ast.get_source_segment(small, n) or "" for n in nodes if isinstance(n, ast.JoinedStr)]
+        dpath = str(detail[0]) if isinstance(detail, (list, tuple)) and detail else ""
+        if any("\\N{" in g for g in fsegs) and (cls == "REJECT" or (cls == "DIFF" and k1 == "JoinedStr.values")):
+            return cls + "/JoinedStr/named-unicode-escape-in-an-f-string"
+        if cls == "DIFF" and k1 == "JoinedStr.values" and "format_spec" in dpath and any("\\" in g for g in fsegs):
+            return "DIFF/JoinedStr/backslash-escape-inside-a-format-spec-not-decoded"
+        if cls == "DIFF" and k1 == "JoinedStr.values" and "format_spec" not in dpath and "\f" in small and any(re.search(r"\{[^{}]*[^=!<>{}]=\s*(![rsa])?(:[^{}]*)?\}", g) for g in fsegs):
+            return "DIFF/JoinedStr/self-documenting-field-on-a-line-starting-with-a-form-feed-loses-its-label"
+        if cls == "REJECT" and str(detail).startswith("code: yield") and any(isinstance(n, ast.FormattedValue) and any(isinstance(m, (ast.Yield, ast.YieldFrom)) for m in ast.walk(n.value)) for n in nodes):
+            return "REJECT/JoinedStr/yield-inside-a-replacement-field"
+    if cls == "REJECT" and re.match(r"code: (or|and|if)\b", str(detail)) and any(isinstance(n, ast.Call) and any(isinstance(a, ast.Starred) and isinstance(a.value, (ast.BoolOp, ast.IfExp)) for a in n.args) for n in nodes):
+        return "REJECT/Call/starred-argument-with-unparenthesised-boolean-or-conditional-expression"
+    if cls == "REJECT" and str(detail).startswith("code: *") and any(isinstance(n, (ast.For, ast.AsyncFor)) and isinstance(n.iter, ast.Tuple) and any(isinstance(e, ast.Starred) for e in n.iter.elts) for n in nodes):
+        return "REJECT/For/starred-element-in-unparenthesised-iterable-tuple"
+    if cls == "REJECT" and "can't delete ()" in str(detail) and any(isinstance(n, ast.Delete) and any(isinstance(t, (ast.Tuple, ast.List)) and not t.elts for t in n.targets) for n in nodes):
+        return "REJECT/Delete/empty-tuple-or-list-target"
+    if cls == "REJECT" and surface and str(detail).startswith("code: ") and re.search(r"(?<![\w.])(e|err|o|out|a|all|\d)>(p|e|o|err|out|\d)\w", text) and any(isinstance(n, ast.Compare) for n in nodes):
+        return "REJECT/surface/redirect-like-comparison-followed-by-more-name-characters"
+    if cls == "DIFF" and k1 == "With.items" and re.search(r"\bwith\s*\(", text):
+        return "DIFF/With.items/parenthesised-items"
     if cls == "REJECT" and "JoinedStr" in kinds:
-        segs = [ast.get_source_segment(small, n) or "" for n in nodes if isinstance(n, ast.JoinedStr) and n.lineno != n.end_lineno]
+        segs =[ast.get_source_segment(small, n) or "" for n in nodes if isinstance(n, ast.JoinedStr) and n.lineno != n.end_lineno]
         segs = [g for g in segs if not re.match(r"(?i)[rfbu]*('''|\"\"\")", g)]
         if segs and "EOL while scanning f-string" in str(detail) and any("\\\n" in g for g in segs):
             return "REJECT/JoinedStr/backslash-newline-inside-the-text-of-a-single-quoted-f-string"
@@ -453,7 +475,7 @@ def directed_cases():
         "{a, *b}\n", "{*a}\n", "{*a, *b}\n", "[a, *b]\n", "(a, *b)\n", "{**a, 'k': 1}\n",
         # witnesses of findings first seen by the thorough tier
         "(x or[])\n", "x and(y)\n", "x or-1\n", "type x=x and-x\n", "(x[x:=0])\n", "x[(y:=0)]\n", "match x := x,:\n    case y as v,:\n        pass\n",
-        "x = f'a \\\nb'\n", "(f'{x\n- x}')\n", "(rf'a\\'b')\n", "\u05e2\u05b4\u05d1 = 1\n", "y = [(x for o in x)]\n", "match x:\n    case x([[{}]]):\n        0\n",
+        "x = f'a \\\nb'\n", "(f'{x\n- x}')\n", "(f'\\N{AMPERSAND}')\n", "(f'\\N{GREEK CAPITAL LETTER DELTA}')\n", "f'{x:\\n}'\n", "\fx = f\"Passed {x=}\"\n", "def fn(y):\n    f'{yield}'\n", "x(*x or x)\n", "x(*x if x else x, default=x)\n", "for x in x, *x:\n    x\n", "del ()\n", "(x is not e>print.ls)\n", "a>pp\n", "(rf'a\\'b')\n", "\u05e2\u05b4\u05d1 = 1\n", "y = [(x for o in x)]\n", "match x:\n    case x([[{}]]):\n        0\n",
         "def f(a, *args: T, **kw: T): pass\n", "def f(*args: T): pass\n", "def f(**kw: T): pass\n", "def f(*, a: T = 1): pass\n",
         "def f(a, /, b, *, c): pass\n", "def f(a=1, /, b=2, *c, d, e=3, **f) -> int: pass\n", "lambda a, /, b=1, *c, d, **e: 0\n",
         "with (a as b, c as d): pass\n", "with (a as b): pass\n", "with (a, b): pass\n", "with (a, b) as c: pass\n", "with a as b, c as d: pass\n",
